@@ -51,13 +51,13 @@ NAMES = ["vqa", "vqb", "vqc"]
 DIRS = ["d0", "d1", "d2", "d3", "d4", "pool"]
 NCMD = 5                      # d0..d4 are the command directories, DIRS[5] is the pool
 MODES = [0o644, 0o755, 0o700, 0o111, 0o000, 0o100, 0o010, 0o001, 0o600]
-KINDS = ["script", "script", "elf", "plain"]
+KINDS = ["script", "script", "script", "elf", "elf", "plain"]
 
 # symbolic PATH entries ({R} = root of the scratch tree); meaning of the relative ones depends on cwd
 PATH_ENTRIES = (["{R}/d%d" % i for i in range(NCMD)] * 3 +
                 ["{R}/d0/", "{R}/d1/", "d0", "d1", "./d2", "../d0", "../d1", "", "", ".", "{R}/ld0", "{R}/ld0/",
                  "{R}/nope", "nope", "{R}/d1/../d0", "{R}/d0/../d1/.", "{R}/pool", "{R}/d0/vqa", "{R}", "..",
-                 "{R}//d1", "{R}/d2/./"])
+                 "{R}//d1", "{R}/d2/./", "{R}/nope/../d0", "{R}/d0/vqa/../../d1"])
 CWDS = ["{R}", "{R}/d0", "{R}/d1", "{R}/pool", "{R}/ld0", "{R}/d2"]
 LINK_TARGETS = ["../d0/{N}", "../d1/{N}", "../d2/{N}", "{R}/d0/{N}", "{R}/d1/{N}", "../pool/{N}", "{R}/pool/{N}",
                 "../pool/vqa", "nope", "../nope/{N}", "{N}", "vqa", "vqb", "vqc", ".", "../pool", "{R}/d1",
@@ -68,6 +68,7 @@ EXPLICIT = ["./{N}", "d0/{N}", "d1/{N}", "{R}/d0/{N}", "{R}/d1/{N}", "../d0/{N}"
 F_MTIME = "C08-F1"       # listing of a directory cached under its mtime: chmod / change behind a symlink / restored mtime
 F_MERGE = "C08-F2"       # merged name->path map not rebuilt after a $PATH edit (or chdir) that adds no new/modified dir
 F_INSEP = "C08-F3"       # `"./x" in commands_cache` answers for the basename on $PATH
+F_DOTS = "C08-F5"        # $PATH entry "missing/../d0": unusable for the OS, searched by xonsh (realpath normalises it lexically)
 F_EMPTY = "C08-F4"       # $PATH = [] : execution searches the current directory although every lookup says "not found"
 
 # set to False to stop demanding that `<name with separator> in commands_cache` refers to that path only
@@ -113,10 +114,25 @@ def effective_dirs(entries):
     """The directories a POSIX search visits, as (realpath) strings without repetitions, in order."""
     out = []
     for e in entries:
-        rp = os.path.realpath(e if e != "" else ".")
-        if rp in out or not os.path.isdir(rp):
+        p = e if e != "" else "."
+        if not os.path.isdir(p):        # the OS decides (a missing component makes "missing/../d0" unusable)
             continue
-        out.append(rp)
+        r = os.path.realpath(p)
+        if r not in out:
+            out.append(r)
+    return out
+
+
+def lenient_entries(entries):
+    """The $PATH list as read by code that normalises an entry lexically (os.path.realpath, non-strict) before
+    asking whether it is a directory: differs from `entries` only for an entry the OS cannot resolve."""
+    out = []
+    for e in entries:
+        p = e if e != "" else "."
+        if not os.path.isdir(p) and os.path.isdir(os.path.realpath(p)):
+            out.append(os.path.realpath(p))
+        else:
+            out.append(e)
     return out
 
 
@@ -241,7 +257,7 @@ class World:
         self.shadow = None
         self.cache_on = True
         self.closed = False
-        self.last_cause = None
+        self._rpc = {}
 
     # -- helpers -----------------------------------------------------------------------
     def sub(self, s, name=None):
@@ -360,10 +376,36 @@ class World:
         self.XSH = session.load_session(self.base, path=entries, ENABLE_COMMANDS_CACHE=self.cache_on,
                                         PWD=self.R)
         self.shadow = Shadow(self.cache_on)
+        for d, n, kind, mode in op.get("files", []):
+            if not os.path.isdir(self.dpath(d)):
+                continue
+            path = os.path.join(self.dpath(d), n)
+            if os.path.lexists(path):
+                self._remove(path)
+            self._write(path, kind, mode)
         return "init"
+
+    def _existing(self, regular_only):
+        out = []
+        for i in range(len(DIRS)):
+            d = self.dpath(i)
+            if os.path.islink(d) or not os.path.isdir(d):
+                continue
+            for n in sorted(os.listdir(d)):
+                q = os.path.join(d, n)
+                if regular_only and not os.path.isfile(q):
+                    continue
+                out.append((i, n))
+        return out
 
     def _fs_entry(self, op):
         k = op["op"]
+        if "pick" in op:
+            # chmod / delete address the k-th existing entry (keeps these rules from being no-ops)
+            ex = self._existing(regular_only=(k == "chmod"))
+            if not ex:
+                return "noop"
+            op["d"], op["n"] = ex[op["pick"] % len(ex)]
         d = self.dpath(op["d"])
         if not os.path.isdir(d):
             return "noop"
@@ -396,11 +438,14 @@ class World:
                 st = os.stat(path)
             except OSError:
                 return "noop"
-            if not stat.S_ISREG(st.st_mode) or stat.S_IMODE(st.st_mode) == op["mode"]:
+            mode = op["mode"]
+            if mode == "flip":
+                mode = 0o644 if st.st_mode & 0o111 else 0o755
+            if not stat.S_ISREG(st.st_mode) or stat.S_IMODE(st.st_mode) == mode:
                 return "noop"
-            os.chmod(path, op["mode"])
-            lab = "chmod+x" if (op["mode"] & 0o111 and not st.st_mode & 0o111) else \
-                "chmod-x" if (st.st_mode & 0o111 and not op["mode"] & 0o111) else "chmod"
+            os.chmod(path, mode)
+            lab = "chmod+x" if (mode & 0o111 and not st.st_mode & 0o111) else \
+                "chmod-x" if (st.st_mode & 0o111 and not mode & 0o111) else "chmod"
         elif k == "mkentry":
             if os.path.lexists(path):
                 self._remove(path)
@@ -501,6 +546,18 @@ class World:
                 return ln[5:]
         raise HarnessError("file %s has no identity" % path)
 
+    def _rp(self, p):
+        """realpath with a memo that lives for one observation phase (the tree is static there)"""
+        if p is None:
+            return None
+        r = self._rpc.get(p)
+        if r is None:
+            r = self._rpc[p] = os.path.realpath(p)
+        return r
+
+    def _same_map(self, a, b):
+        return set(a) == set(b) and all(self._rp(a[k]) == self._rp(b[k]) for k in a)
+
     def observe(self, op, what):
         from xonsh.procs.executables import locate_executable
         from xonsh.procs.specs import SubprocSpec
@@ -509,10 +566,14 @@ class World:
         XSH = self.XSH
         cc = XSH.commands_cache
         st = self.stats
+        R = self.R
+        self._rpc = {}
+        rp = self._rp
         entries = [str(x) for x in XSH.env["PATH"]]
         cwd = os.getcwd()
         mutated = what not in ("noop", "lookup", "run")
         empty_path = (len(entries) == 0)
+        where = "PATH %r, cwd %r" % (_shortl(entries, R), _shortp(cwd, R))
 
         # ---- references
         eff = effective_dirs(entries)
@@ -520,49 +581,69 @@ class World:
         truth = {n: ref_lookup(n, entries) for n in NAMES}
         for n in NAMES:
             if rp(truth[n]) != rp(truth_all.get(n)):
-                raise HarnessError("reference self-check: search gives %r, listing gives %r (PATH %r cwd %r)" % (
-                    truth[n], truth_all.get(n), entries, cwd))
+                raise HarnessError("reference self-check: search gives %r, listing gives %r (%s)" % (
+                    truth[n], truth_all.get(n), where))
         if not empty_path:
             shres = sh_lookup(NAMES, entries)
             for n, s in zip(NAMES, shres):
                 if rp(s) != rp(truth[n]):
-                    raise HarnessError("references disagree for %r: python model %r, dash %r (PATH %r, cwd %r, ops %r)" % (
-                        n, truth[n], s, entries, cwd, self.ops))
+                    raise HarnessError("references disagree for %r: python model %r, dash %r (%s, ops %r)" % (
+                        n, truth[n], s, where, self.ops))
+        # C08-F5 reading: an entry the OS cannot resolve ("missing/../d0") but whose lexical normal form exists
+        lenient = lenient_entries(entries)
+        f5 = lenient != entries
+        if f5:
+            eff_x = effective_dirs(lenient)
+            truth_all_x = ref_all(eff_x)
+            if st is not None:
+                st.hist["path:os-unresolvable-entry-with-existing-normal-form"] += 1
+        else:
+            eff_x, truth_all_x = eff, truth_all
+
+        def lenient_exp(name):
+            return ref_lookup(name, lenient) if (f5 and "/" not in name) else ref_lookup(name, entries)
+
         exported = XSH.env.detype().get("PATH")
-        if exported != ":".join(entries):
+        if exported != ":".join(entries) and not (empty_path and exported in (None, "")):
             self.mismatch("path-export-differs", "detype", "children get PATH=%r, $PATH is %r" % (exported, entries))
 
-        # ---- cache views (one refresh per observation phase; the shadow refreshes at the same point)
-        self.shadow.update(eff)
+        # ---- cache views (xonsh refreshes once per observation phase; the shadow refreshes at the same point)
+        self.shadow.update(eff_x)
         sh_m = self.shadow.merged
-        cause = (None, None)
+        cause = self.shadow.cause(eff_x) if not self._same_map(sh_m, truth_all_x) else (None, None)
+        counted = [False]
+
+        def stale(view, detail):
+            """the cache view gave exactly the answer of the mtime-keyed algorithm, which is wrong now"""
+            if cause[0] is None:
+                raise HarnessError("shadow differs from the truth without a cause (%s; %s)" % (view, detail))
+            if st is not None and not counted[0]:
+                st.hist["stale:%s:%s" % cause] += 1
+            self.mismatch("stale-cache", view, "%s [%s]" % (detail, cause[1]), finding=cause[0], count=not counted[0])
+            counted[0] = True
+
+        def unresolvable(view, detail):
+            self.mismatch("unresolvable-path-entry-used", view,
+                          detail + " - a $PATH entry that the OS cannot resolve (a missing/non-directory component "
+                          "followed by ..) was searched in its lexically normalised form", finding=F_DOTS,
+                          count=not counted[0])
+            counted[0] = True
+
         try:
             allc = {k: v[0] for k, v in cc.all_commands.items() if not v[1]}
         except Exception as e:  # noqa: BLE001
             allc = None
-            self.mismatch("exception", "all_commands", "%s: %s" % (type(e).__name__, e),
+            self.mismatch("exception", "all_commands", "%s: %s (%s)" % (type(e).__name__, e, where),
                           bucket="exception:all_commands:" + type(e).__name__)
-        stale_seen = False
-        if allc is not None:
-            ok = (set(allc) == set(truth_all) and all(rp(allc[k]) == rp(truth_all[k]) for k in allc))
-            if not ok:
-                if allc == sh_m:
-                    cause = self.shadow.cause(eff)
-                    if cause[0] is None:
-                        raise HarnessError("shadow differs from truth without a cause: %r vs %r" % (sh_m, truth_all))
-                    stale_seen = True
-                    if st is not None:
-                        st.hist["stale:" + cause[0] + ":" + cause[1]] += 1
-                    self.mismatch("stale-cache", "all_commands",
-                                  "commands_cache.all_commands lists %r, the file system has %r (PATH %r, cwd %r; %s)" % (
-                                      _short(allc, self.R), _short(truth_all, self.R), _shortl(entries, self.R),
-                                      _shortp(cwd, self.R), cause[1]),
-                                  finding=cause[0])
-                else:
-                    self.mismatch("view-differs", "all_commands",
-                                  "commands_cache.all_commands lists %r, the file system has %r (PATH %r, cwd %r)" % (
-                                      _short(allc, self.R), _short(truth_all, self.R), _shortl(entries, self.R),
-                                      _shortp(cwd, self.R)))
+        if allc is not None and not self._same_map(allc, truth_all):
+            detail = "commands_cache.all_commands lists %r, the file system has %r (%s)" % (
+                _short(allc, R), _short(truth_all, R), where)
+            if f5 and self._same_map(allc, truth_all_x):
+                unresolvable("all_commands", detail)
+            elif allc == sh_m:
+                stale("all_commands", detail)
+            else:
+                self.mismatch("view-differs", "all_commands", detail)
 
         probes = list(NAMES)
         if op.get("probe"):
@@ -570,38 +651,41 @@ class World:
         for name in probes:
             explicit = "/" in name
             exp = truth[name] if not explicit else ref_lookup(name, entries)
-            ctx = "name %r, expected %s, PATH %r, cwd %r" % (name, _shortp(exp, self.R), _shortl(entries, self.R),
-                                                            _shortp(cwd, self.R))
+            exp_x = lenient_exp(name)
+            ctx = "name %r, the $PATH search selects %s; %s" % (_shortp(name, R), _shortp(exp, R), where)
             tag = ":explicit" if explicit else ""
+
+            def judge(view, obs, text):
+                if rp(obs) == rp(exp):
+                    return
+                if f5 and rp(obs) == rp(exp_x):
+                    unresolvable(view, "%s %s; %s" % (text, _shortp(obs, R), ctx))
+                else:
+                    self.mismatch("view-differs", view + tag, "%s %s; %s" % (text, _shortp(obs, R), ctx))
+
             # V1 locate_executable
             try:
-                le = locate_executable(name)
-            except Exception as e:  # noqa: BLE001
-                le = "<exc>"
-                self.mismatch("exception", "locate_executable" + tag, "%s: %s; %s" % (type(e).__name__, e, ctx),
-                              bucket="exception:locate_executable:" + type(e).__name__)
-            if le != "<exc>" and rp(le) != rp(exp):
-                self.mismatch("view-differs", "locate_executable" + tag,
-                              "locate_executable gave %s; %s" % (_shortp(le, self.R), ctx))
-            # V2 SubprocSpec.build
-            try:
-                sp = test_build_frame(SubprocSpec, [name])
-                got = sp.binary_loc if list(sp.cmd) == [name] else (sp.cmd[-1] if sp.cmd else None)
-                if callable(sp.alias) or sp.alias is not None:
-                    raise HarnessError("name %r hit an alias" % name)
-            except XonshError as e:
-                got = None
-                if exp is not None:
-                    self.mismatch("view-differs", "spec" + tag, "SubprocSpec.build raised %s; %s" % (e, ctx))
-            except HarnessError:
+                judge("locate_executable", locate_executable(name), "locate_executable gave")
+            except Mismatch:
                 raise
             except Exception as e:  # noqa: BLE001
-                got = "<exc>"
+                self.mismatch("exception", "locate_executable" + tag, "%s: %s; %s" % (type(e).__name__, e, ctx),
+                              bucket="exception:locate_executable:" + type(e).__name__)
+            # V2 SubprocSpec.build: binary_loc, or the script when xonsh rewrote the line to `<interpreter> <script>`
+            try:
+                try:
+                    sp = test_build_frame(SubprocSpec, [name])
+                    if sp.alias is not None:
+                        raise HarnessError("name %r hit an alias" % name)
+                    got = sp.binary_loc if list(sp.cmd) == [name] else (sp.cmd[-1] if sp.cmd else None)
+                except XonshError:
+                    got = None          # "permission denied" for an explicit path that is not executable
+                judge("spec", got, "SubprocSpec.build resolved")
+            except (Mismatch, HarnessError):
+                raise
+            except Exception as e:  # noqa: BLE001
                 self.mismatch("exception", "spec" + tag, "%s: %s; %s" % (type(e).__name__, e, ctx),
                               bucket="exception:spec:" + type(e).__name__)
-            if got != "<exc>" and rp(got) != rp(exp):
-                self.mismatch("view-differs", "spec" + tag,
-                              "SubprocSpec.build resolved %s; %s" % (_shortp(got, self.R), ctx))
             # V3 locate_binary, V4 `in`
             try:
                 lb = cc.locate_binary(name)
@@ -612,33 +696,26 @@ class World:
                 continue
             if not explicit:
                 if rp(lb) != rp(exp):
-                    if lb == sh_m.get(name):
-                        c = cause if cause[0] else self.shadow.cause(eff)
-                        if c[0] is None:
-                            raise HarnessError("shadow/truth differ without cause for %r" % name)
-                        self.mismatch("stale-cache", "locate_binary",
-                                      "locate_binary gave %s (%s); %s" % (_shortp(lb, self.R), c[1], ctx),
-                                      finding=c[0], count=not stale_seen)
-                        stale_seen = True
+                    text = "locate_binary gave %s; %s" % (_shortp(lb, R), ctx)
+                    if f5 and rp(lb) == rp(exp_x):
+                        unresolvable("locate_binary", text)
+                    elif lb == sh_m.get(name):
+                        stale("locate_binary", text)
                     else:
-                        self.mismatch("view-differs", "locate_binary",
-                                      "locate_binary gave %s; %s" % (_shortp(lb, self.R), ctx))
+                        self.mismatch("view-differs", "locate_binary", text)
                 if inn != (exp is not None):
-                    if inn == (name in sh_m):
-                        c = cause if cause[0] else self.shadow.cause(eff)
-                        if c[0] is None:
-                            raise HarnessError("shadow/truth differ without cause for %r" % name)
-                        self.mismatch("stale-cache", "in", "`%s in commands_cache` is %r (%s); %s" % (
-                            name, inn, c[1], ctx), finding=c[0], count=not stale_seen)
-                        stale_seen = True
+                    text = "`%r in commands_cache` is %r; %s" % (name, inn, ctx)
+                    if f5 and inn == (exp_x is not None):
+                        unresolvable("in", text)
+                    elif inn == (name in sh_m):
+                        stale("in", text)
                     else:
-                        self.mismatch("view-differs", "in", "`%s in commands_cache` is %r; %s" % (name, inn, ctx))
+                        self.mismatch("view-differs", "in", text)
             else:
                 # a name with a separator refers only to that path
-                is_file = os.path.isfile(name)
-                if lb is not None and (not is_file or rp(lb) != rp(name)):
+                if lb is not None and (not os.path.isfile(name) or rp(lb) != rp(name)):
                     self.mismatch("view-differs", "locate_binary:explicit",
-                                  "locate_binary gave %s; %s" % (_shortp(lb, self.R), ctx))
+                                  "locate_binary gave %s; %s" % (_shortp(lb, R), ctx))
                 if lb is None and exp is not None:
                     self.mismatch("view-differs", "locate_binary:explicit", "locate_binary gave None; %s" % ctx)
                 if CHECK_IN_WITH_SEPARATOR and inn != (exp is not None):
@@ -647,45 +724,52 @@ class World:
                         if st is not None:
                             st.hist["in-with-separator-wrong"] += 1
                         self.mismatch("in-explicit", "in:explicit",
-                                      "`%r in commands_cache` is %r although that path %s (the answer is the one for "
-                                      "the bare name %r on $PATH); %s" % (
-                                          _shortp(name, self.R), inn,
-                                          "is an executable file" if exp else "is not an executable file", base, ctx),
+                                      "`%r in commands_cache` is %r although that path %s (it is the answer for the "
+                                      "bare name %r on $PATH); %s" % (
+                                          _shortp(name, R), inn,
+                                          "is an executable file" if exp else "is not an executable file", base, where),
                                       finding=F_INSEP)
                     else:
                         self.mismatch("view-differs", "in:explicit", "`%r in commands_cache` is %r; %s" % (
-                            _shortp(name, self.R), inn, ctx))
+                            _shortp(name, R), inn, ctx))
 
         # ---- really run it
         if op["op"] == "run":
             name = self.sub(op["name"][0], op["name"][1])
             exp = ref_lookup(name, entries)
+            for alt in op.get("alt", []):
+                if exp is not None:
+                    break
+                name = self.sub(op["name"][0], alt)
+                exp = ref_lookup(name, entries)
+            exp_x = lenient_exp(name)
             got, err = self._run(name)
             want = None if exp is None else self._ident(exp)
             if got != want:
+                text = "running `%s` was answered by %r, the $PATH search selects %s = %r (%s; %s)" % (
+                    _shortp(name, R), got, _shortp(exp, R), want, where, err)
                 if empty_path and "/" not in name and want is None and _is_exec_file("./" + name) \
                         and got == self._ident("./" + name):
                     self.mismatch("runs-cwd-file", "run",
                                   "$PATH is the empty list, every lookup says %r is not a command, but running it "
                                   "executed ./%s of the current directory (children get PATH='' which POSIX reads as "
                                   "'search the current directory')" % (name, name), finding=F_EMPTY)
+                elif f5 and rp(exp) != rp(exp_x) and got in (None, self._ident(exp_x) if exp_x else None):
+                    unresolvable("run", text)
                 else:
-                    self.mismatch("run-differs", "run",
-                                  "running `%s` was answered by %r, the $PATH search selects %s = %r (PATH %r, cwd %r; %s)" % (
-                                      _shortp(name, self.R), got, _shortp(exp, self.R), want, _shortl(entries, self.R),
-                                      _shortp(cwd, self.R), err))
+                    self.mismatch("run-differs", "run", text)
             if st is not None:
                 st.hist["run:" + ("found" if want else "notfound")] += 1
 
         # ---- statistics
         if st is not None:
             lay = self._layout()
-            cwd_rel = _shortp(cwd, self.R)
+            cwd_rel = _shortp(cwd, R)
             flags = self._flags(entries, eff, truth)
             for n in NAMES:
                 labels = ["after:" + what, "expect:" + ("found" if truth[n] else "none")]
                 labels += flags[n]
-                st.case((lay, tuple(_shortl(entries, self.R)), cwd_rel, self.cache_on, n), mutated, labels)
+                st.case((lay, tuple(_shortl(entries, R)), cwd_rel, self.cache_on, n), mutated, labels)
             if mutated and len(self.ops) > 1:
                 st.hist["step-mutating"] += 1
             if not self.cache_on:
@@ -813,9 +897,9 @@ def make_machine(stats, base, tolerate, ignore):
     from hypothesis.stateful import RuleBasedStateMachine, initialize, rule
 
     dirs_cmd = st.integers(0, NCMD - 1)
-    dirs_any = st.sampled_from([0, 0, 1, 1, 2, 3, 4, NCMD])
+    dirs_any = st.sampled_from([0, 0, 0, 1, 1, 1, 2, 2, 3, 4, NCMD])
     names = st.sampled_from(NAMES)
-    modes = st.sampled_from(MODES + [0o755, 0o755, 0o644])
+    modes = st.sampled_from(MODES + [0o755] * 6 + [0o644] * 2)
     entry = st.sampled_from(PATH_ENTRIES)
     probe = st.one_of(st.none(), st.tuples(st.sampled_from(EXPLICIT), names))
     mts = st.sampled_from([None] * 8 + ["keep", "older"])
@@ -835,12 +919,16 @@ def make_machine(stats, base, tolerate, ignore):
             self.w.step(op)
 
         @initialize(ndirs=st.integers(2, NCMD), path=st.lists(entry, min_size=1, max_size=5),
-                    cache=st.sampled_from([True, True, True, True, False]))
-        def init(self, ndirs, path, cache):
-            self._go({"op": "init", "ndirs": ndirs, "path": path, "cache": cache})
+                    cache=st.sampled_from([True, True, True, True, False]),
+                    files=st.lists(st.tuples(dirs_any, names, st.sampled_from(KINDS), modes), min_size=2, max_size=10))
+        def init(self, ndirs, path, cache, files):
+            self._go({"op": "init", "ndirs": ndirs, "path": path, "cache": cache, "files": [list(f) for f in files]})
 
-        @rule(d=dirs_any, n=names, kind=st.sampled_from(KINDS), mode=modes, rename=st.booleans(), mt=mts, probe=probe)
+        @rule(d=dirs_any, n=names, kind=st.sampled_from(KINDS + ["dir"]), mode=modes, rename=st.booleans(), mt=mts,
+              probe=probe)
         def create(self, d, n, kind, mode, rename, mt, probe):
+            if kind == "dir":
+                return self._go({"op": "mkentry", "d": d, "n": n}, probe)
             op = {"op": "create", "d": d, "n": n, "kind": kind, "mode": mode}
             if rename:
                 op["rename"] = True
@@ -848,24 +936,25 @@ def make_machine(stats, base, tolerate, ignore):
                 op["mt"] = mt
             self._go(op, probe)
 
-        @rule(d=dirs_any, n=names, mt=mts, probe=probe)
-        def delete(self, d, n, mt, probe):
-            op = {"op": "delete", "d": d, "n": n}
+        @rule(k=st.integers(0, 17), mt=mts, probe=probe)
+        def delete(self, k, mt, probe):
+            op = {"op": "delete", "pick": k}
             if mt:
                 op["mt"] = mt
             self._go(op, probe)
 
-        @rule(d=dirs_any, n=names, mode=modes, probe=probe)
-        def chmod(self, d, n, mode, probe):
-            self._go({"op": "chmod", "d": d, "n": n, "mode": mode}, probe)
+        @rule(k=st.integers(0, 17), mode=modes, probe=probe)
+        def chmod(self, k, mode, probe):
+            self._go({"op": "chmod", "pick": k, "mode": mode}, probe)
 
-        @rule(d=dirs_any, n=names, probe=probe)
-        def mkentry(self, d, n, probe):
-            self._go({"op": "mkentry", "d": d, "n": n}, probe)
+        @rule(k=st.integers(0, 17), probe=probe)
+        def chmod_flip(self, k, probe):
+            # toggle executability: the change a directory listing keyed on the directory mtime cannot see
+            self._go({"op": "chmod", "pick": k, "mode": "flip"}, probe)
 
-        @rule(d=dirs_any, n=names, target=st.sampled_from(LINK_TARGETS), mt=mts, probe=probe)
-        def symlink(self, d, n, target, mt, probe):
-            op = {"op": "symlink", "d": d, "n": n, "target": target}
+        @rule(d=dirs_any, n=names, tgt=st.sampled_from(LINK_TARGETS), mt=mts, probe=probe)
+        def symlink(self, d, n, tgt, mt, probe):
+            op = {"op": "symlink", "d": d, "n": n, "target": tgt}
             if mt:
                 op["mt"] = mt
             self._go(op, probe)
@@ -914,9 +1003,13 @@ def make_machine(stats, base, tolerate, ignore):
         def chdir(self, to, probe):
             self._go({"op": "chdir", "to": to}, probe)
 
-        @rule(n=names, form=st.sampled_from(["{N}", "{N}", "{N}", "./{N}", "d0/{N}"]), probe=probe)
-        def run(self, n, form, probe):
-            self._go({"op": "run", "name": [form, n]}, probe)
+        @rule(ns=st.permutations(NAMES), form=st.sampled_from(["{N}", "{N}", "{N}", "{N}", "./{N}", "d0/{N}"]),
+              prefer_found=st.sampled_from([True, True, True, False]), probe=probe)
+        def run(self, ns, form, prefer_found, probe):
+            op = {"op": "run", "name": [form, ns[0]]}
+            if prefer_found:
+                op["alt"] = list(ns[1:])      # run the first of these names that is a command, if ns[0] is not
+            self._go(op, probe)
 
         @rule(p=st.tuples(st.sampled_from(EXPLICIT), names))
         def lookup(self, p):
@@ -966,8 +1059,8 @@ def main(run):
     finally:
         os.chdir(home)
     tolerate = _open_ids()
-    nw = 8 if run.tier == "quick" else 16
-    nex = run.n(110, 3600)
+    nw = 10 if run.tier == "quick" else 16
+    nex = run.n(66, 3000)
     steps = run.n(40, 60)
     common.pool_map(run, __name__, "worker_machine",
                     [(common.worker_seed(run.seed, w), nex, steps, os.path.join(run.scratch, "w%d" % w, "m"), tolerate)
